@@ -53,6 +53,13 @@ def enumerate_paths(n):
                 h = None
             rec(st, h, path + [[kind, i]])
     rec(["pre"] * n, None, [])
+    if n == 2:
+        # an attempt that is still in progress when the holder finishes or is killed: the contender
+        # began to acquire while the lock was held, so it must still end with a lock error
+        for i in range(2):
+            j = 1 - i
+            for end in ("F", "K"):
+                paths.append([["A", i], ["O", j], [end, i]])
     return paths
 
 
@@ -61,6 +68,12 @@ def execute(desc):
     s = sc.Scratch("c14")
     try:
         r = sc.Repo(s, "r", TARGETS, commands={"a": {"build": "x"}, "b": {"build": "x"}})
+        if any(k == "O" for k, _ in path):
+            # overlapped attempts: a generous bind timeout, so that an implementation which keeps
+            # retrying while the lock is held is still retrying when the holder goes away
+            r.cfg["server"]["lock"]["bind_timeout_ms"] = 6000
+            r.write_cfg()
+            r.commit("bind timeout")
         # recorded state a loser could damage: a checkpoint and one completed run with logs
         r.set_script("a", "build", ["out " + b"first run\n".hex(), "exit 0"])
         r.set_script("b", "build", ["out " + b"first run b\n".hex(), "exit 0"])
@@ -84,6 +97,7 @@ def execute(desc):
                     raise common.EngineError("contender %s did not reach lock.pre (exit %s, %s)" % (api, p.code, p.err[:200]))
             status = ["pre"] * len(apis)
             holder = None
+            overlapped = None
 
             def hit_of(i, prefix):
                 for h in c.held():
@@ -135,6 +149,16 @@ def execute(desc):
                                 viol.append(("loser-modified-state", "%s lost the lock but <out_dir> changed: %s" % (apis[i], diff)))
                     if len(at_post()) > 1:
                         viol.append(("two-holders", "contenders %s are both past lock acquisition" % [apis[k] for k in at_post()]))
+                elif kind == "O":
+                    nchildren = len(c.children)
+                    c.resume(hit_of(i, "lock.pre"))
+                    # the holder stays at lock.post for this whole window, so the attempt begins while
+                    # the lock is held
+                    c.wait(lambda: p.done() or hit_of(i, "lock.post") is not None, 2.0)
+                    if hit_of(i, "lock.post") is not None:
+                        viol.append(("two-holders", "%s acquired the lock while %s holds it" % (apis[i], apis[holder])))
+                    overlapped = i
+                    status[i] = "attempting" if not p.done() else "done"
                 elif kind == "F":
                     c.resume(hit_of(i, "lock.post"))
                     t_end = time.time() + 20
@@ -153,6 +177,22 @@ def execute(desc):
                     c.wait(lambda: p.done(), 10)
                     status[i] = "done"
                     holder = None
+            if overlapped is not None:
+                pj = procs[overlapped]
+                t_end = time.time() + 12
+                while not pj.done() and time.time() < t_end:
+                    c.pump(0.02)
+                    h = hit_of(overlapped, "lock.post")
+                    if h is not None:
+                        c.resume(h)
+                    for ch in list(c.waiting()):
+                        c.release(ch, 0)
+                err = sc.Result(pj.code, pj.out, pj.err).err_json() or {}
+                if not pj.done():
+                    viol.append(("contender-hung", "%s did not finish" % apis[overlapped]))
+                elif pj.code == 0 or err.get("type") != "server" or "Lock acquisition failed" not in str(err.get("message")):
+                    viol.append(("contender-acquired-after-waiting", "%s began to acquire while %s held the lock (the holder stayed past acquisition for 2 s after the attempt started) and yet ended with exit %s %s instead of a lock error" % (apis[overlapped], apis[1 - overlapped], pj.code, pj.err[:150])))
+                status[overlapped] = "done"
             states.add((tuple(status), holder))
             return {"evaluations": 1, "nontrivial": 1 if any(k == "A" for k, _ in path[1:]) else 0,
                     "states": [list(map(str, st)) for st in states], "transitions": len(path),
@@ -199,7 +239,7 @@ def run(prop, tier):
            "distinct_nontrivial": sum(r["nontrivial"] for r in results),
            "violations": [v for r in results for v in r["violations"]],
            "samples": [r["sample"] for r in results[:: max(1, len(results) // 5)]][:6], "exhaustive": True,
-           "rule": "contenders: every ordered pair (thorough: plus every multiset of 3) over {run, checkpoint update, checkpoint delete, out delete --all}, all started and held at lock.pre; every maximal sequence of {attempt i, finish holder, kill holder (SIGKILL)}; each sequence executed from scratch on real processes against a repository with a checkpoint and a completed run; invariants: never two contenders past lock acquisition; an attempt while somebody holds exits non-zero with a server lock error, starts no executable and leaves <out_dir> byte-identical; an attempt while nobody holds (initially, after exit, after SIGKILL) acquires at once; states = (contender statuses, holder) per contender tuple"}
+           "rule": "contenders: every ordered pair (thorough: plus every multiset of 3) over {run, checkpoint update, checkpoint delete, out delete --all}, all started and held at lock.pre; every maximal sequence of {attempt i, finish holder, kill holder (SIGKILL)}, plus for pairs an attempt that is still in progress (2 s, bind timeout raised to 6 s) when the holder finishes or is killed; each sequence executed from scratch on real processes against a repository with a checkpoint and a completed run; invariants: never two contenders past lock acquisition; an attempt while somebody holds exits non-zero with a server lock error, starts no executable and leaves <out_dir> byte-identical; an attempt while nobody holds (initially, after exit, after SIGKILL) acquires at once; states = (contender statuses, holder) per contender tuple"}
     by = {}
     for v in agg["violations"]:
         by[v["sig"]] = by.get(v["sig"], 0) + 1
